@@ -21,7 +21,8 @@ from pipefunc.sweep import MultiSweep, Sweep, count_sweep, generate_sweep, set_c
 import framework
 
 PID = "C17"
-PROPS = ["PfModel.Props.C17", "PfModel.Props.C17Ext", "PfModel.Props.C17Count", "PfModel.Props.C17Order"]
+PROPS = ["PfModel.Props.C17", "PfModel.Props.C17Ext", "PfModel.Props.C17Count", "PfModel.Props.C17Order",
+         "PfModel.Props.C17Roots"]
 DRIVER = "C17"
 RULE = ("sweeps over <= 4 dimensions (names a..h) with value lists of length 0..3 drawn with repeats from small ints and strings; dims is "
         "None or an ordered partition of the names into groups (names as str or tuples; zipped groups made equally long 85% of "
